@@ -116,6 +116,9 @@ func Build(t *testing.T, opt Options) *Sys {
 		t.Fatal("core still sealed")
 	}
 	s := &Sys{T: t, Core: c, Phys: physx.Ctl(phys), Root: root, Keys: keys, Rec: rec, Opt: opt}
+	rec.mu.Lock()
+	rec.Tagger = s.Phys.SetTag
+	rec.mu.Unlock()
 	s.hookExpiry()
 	s.settle()
 	return s
@@ -177,6 +180,9 @@ func BootData(t *testing.T, data map[string][]byte, img *Image) (*Sys, error) {
 		return nil, fmt.Errorf("core still sealed after supplying all shares")
 	}
 	s := &Sys{T: t, Core: c, Phys: physx.Ctl(phys), Root: img.Root, Keys: img.Keys, Rec: rec, Opt: img.Opt}
+	rec.mu.Lock()
+	rec.Tagger = s.Phys.SetTag
+	rec.mu.Unlock()
 	s.hookExpiry()
 	s.settle()
 	return s, nil
